@@ -179,6 +179,14 @@ def systematic(rng: random.Random):
         out.append(Case([f"SELECT{w}1; DELETE{w}FROM t"], "exotic-ws"))
         out.append(Case([f"DELETE{w}FROM t"], "exotic-ws"))
         out.append(Case([f"SELECT 1{w};{w}"], "exotic-ws"))
+    # the guards of the repaired sqlite3 handler: case folding, word boundaries, white space before "("
+    for g_ in ("SELECT writefile('x','y')", "SELECT WRITEFILE ('x','y')", "SELECT WriteFile\t\n('x','y')", "SELECT xwritefile('x','y')",
+               "SELECT write_file('x')", "SELECT edit('x')", "SELECT credit(1)", "SELECT load_extension('x')", "SELECT LOAD_EXTEN\u017fION('x')",
+               "SELECT wr\u0131tefile('x')", "SELECT WR\u0130TEFILE('x')", "SELECT 'writefile' (1)", "SELECT writefile", "SELECT writefile\xa0('x','y')",
+               "SELECT 1 -- edit(\n", "vacuum", "VACUUM INTO 'copy.db'", "VaCuUm;", "SELECT vacuum_ FROM t", "SELECT avacuum", "SELECT 'vacuum'", "SELECT \"vacuum\"x",
+               "SELECT vacuum1", "SELECT 1;vacuum", "SELECT \u00e9vacuum", "SELECT $(1)", "SELECT :(1)", "SELECT x::int(1)", "SELECT a:b(1)", "SELECT $a::(1)",
+               "SELECT $a:(1)", "SELECT '$a(' || 1", "SELECT #\u00e9(')", "SELECT 5 $ (1)", "SELECT @@a(1)", "SELECT $a$b(1)"):
+        out.append(Case([g_], "guard-edge"))
     for kw in ("\u017fELECT 1", "DE\u017fCRIBE t", "EXPLA\u0131N DELETE FROM t", "W\u0131TH c AS (SELECT 1) DELETE FROM t", "SELECT$ 1", "SELECT$", "select_ 1",
                "SELECT\xe9 1", "1SELECT", "_SELECT", "SELECT1", "SELECT.1", "SELECT\xaa", "DELETE$ FROM t", "\ufb01", "SELECT * \u0131NTO n FROM t"):
         out.append(Case([kw], "keyword-edge"))
